@@ -13,11 +13,15 @@ pub const A2: [R; 10] =
 /// "Generic" values: pairwise distinct, sign-mixed, all dyadic (exactly representable in
 /// f32/f64), none zero. `variant` selects one of several bases.
 pub fn generic(n: usize, variant: usize) -> Vec<R> {
-    const P: [i64; 24] =
-        [2, 3, 5, 7, 11, 13, 17, 19, 23, 29, 31, 37, 41, 43, 47, 53, 59, 61, 67, 71, 73, 79, 83, 89];
+    const P: [i64; 48] = [
+        2, 3, 5, 7, 11, 13, 17, 19, 23, 29, 31, 37, 41, 43, 47, 53, 59, 61, 67, 71, 73, 79, 83, 89, 97, 101, 103,
+        107, 109, 113, 127, 131, 137, 139, 149, 151, 157, 163, 167, 173, 179, 181, 191, 193, 197, 199, 211, 223,
+    ];
+    assert!(n <= 48);
+    let mult = [1usize, 5, 7, 11][variant % 4]; // coprime to 48: a permutation of the primes
     (0..n)
         .map(|i| {
-            let j = (i * (2 * variant + 1) + 5 * variant) % 24;
+            let j = (i * mult + 5 * variant) % 48;
             let p = P[j];
             let sign = if (i + variant) % 2 == 0 { 1 } else { -1 };
             let den = [1, 1, 2, 2, 4, 1, 2, 4][(i + 3 * variant) % 8];
@@ -269,8 +273,12 @@ mod tests {
             assert_eq!(v[0] * v[0] + v[1] * v[1], d * d);
         }
         let g = generic(16, 0);
-        let s: BTreeSet<_> = g.iter().map(|(n, d)| (n * 4 / d)).collect();
-        assert_eq!(s.len(), 16);
+        for v in 0..4 {
+            let g = generic(48, v);
+            let s: BTreeSet<_> = g.iter().map(|(n, d)| n * 4 / d).collect();
+            assert_eq!(s.len(), 48);
+        }
+        let _ = g;
         println!("uv2 {} uv3 {}/{} uq {}/{}", uv2().len(), uv3(false).len(), uv3(true).len(), uq(0).len(), uq(1).len());
     }
 }
